@@ -1,6 +1,8 @@
 /* Correspondence driver: runs the real library (compiled from /repo's working tree) on case
  * lines read from a file and prints one canonical result line per case. The extracted Gallina
- * model (model_driver.ml) reads the same lines and must print the same results. */
+ * model (harness/md/*.ml) reads the same lines and must print the same results.
+ * Suites live in harness/drv/drv_<name>.h, each defining  static int drv_<name>(char **f, int nf)
+ * (returns 1 when it handled the line); drv_all.h is generated from the directory listing. */
 #define _GNU_SOURCE
 #include <stdio.h>
 #include <stdlib.h>
@@ -10,26 +12,20 @@
 #include "htp/htp_private.h"
 
 #include "drv_util.h"
-
-/* suites, one file each */
-#include "drv_list.h"
-#include "drv_bstr.h"
-#include "drv_table.h"
+#include "drv_all.h"
 
 int main(int argc, char **argv) {
     FILE *in = stdin;
     if (argc > 1) { in = fopen(argv[1], "r"); if (!in) { perror(argv[1]); return 2; } }
     char *line = NULL; size_t cap = 0; ssize_t n;
-    char *f[64];
+    static char *f[4096];
     while ((n = getline(&line, &cap, in)) >= 0) {
         while (n > 0 && (line[n - 1] == '\n' || line[n - 1] == '\r')) line[--n] = 0;
         if (n == 0) continue;
-        int nf = split_tabs(line, f, 64);
-        if (strcmp(f[0], "list") == 0) do_list(f, nf);
-        else if (strcmp(f[0], "table") == 0) do_table(f, nf);
-        else if (drv_bstr(f, nf)) {}
-        else printf("?unknown-suite %s", f[0]);
+        int nf = split_tabs(line, f, 4096);
+        if (!drv_dispatch(f, nf)) printf("?unknown-suite %s", f[0]);
         printf("\n");
+        fflush(stdout);
     }
     free(line);
     if (in != stdin) fclose(in);
